@@ -71,9 +71,21 @@ def bmp_record(rng):
     return struct.pack(">BIB", 3, 6 + len(body), rng.randrange(7)) + body
 
 
+WRAP32 = [2 ** 32 - k for k in range(1, 25)] + [2 ** 31 - 1, 2 ** 31, 2 ** 31 + 1, 2 ** 16, 2 ** 16 - 1, 2 ** 24]
+
+
 def gen_cases(ctx, n, seeds):
     rng = ctx.rng
     cases = []
+    # RTR: every 32-bit aligned field of every PDU type set to the values at which offset arithmetic in uint32 wraps around
+    # (and to +-k of what the PDU's own length would make consistent)
+    for _ in range(ctx.scale(20, 400)):
+        b = rtr_valid(rng)
+        for off in range(0, len(b) - 3, 4):
+            for v in WRAP32 + [len(b) - off - 4, len(b) - off, len(b) - off + 4, len(b), len(b) - 16, len(b) - 12]:
+                if 0 <= v < 2 ** 32:
+                    m = b[:off] + struct.pack(">I", v) + b[off + 4:]
+                    cases.append(("rtr", "rtr %s" % hx(m), m))
     for _ in range(n):
         r = rng.random()
         if r < 0.25:
